@@ -303,6 +303,18 @@ Theorem C11_lazy_no_stuck :
 Proof. exact C11_lazy_no_stuck_pf. Qed.
 Print Assumptions C11_lazy_no_stuck.
 
+(* and what the user is handed obeys the event grammar: for every capacity and every schedule of protocol
+   events and polls — a user who polls late, rarely or never — NotificationStreamOpened and
+   NotificationStreamClosed alternate per peer, no NotificationStreamOpenFailure and every
+   NotificationReceived between an Opened and its Closed (`levents`: the events returned by the polls, in
+   order). Invariant PLazyAlt.LI: after the handle has processed what is still queued, its gate is open
+   exactly for the peers whose PeerState is Open, with the sink of that stream. *)
+Theorem C11_lazy_alternation :
+  forall (c : cfg) (cap : nat) (gs : list lop),
+    exists h, grammar (fun _ => false) (levents (fst (lrun c cap linit gs))) = Some h.
+Proof. exact lazy_alternation. Qed.
+Print Assumptions C11_lazy_alternation.
+
 (* nothing is lost and nothing is reordered: what the polls took from the queue (events handed to the user
    and, in front of them, Closed reports that the handle ignores), followed by what is still queued (in the
    channel or with a waiting producer), is exactly what was emitted, in order; *)
